@@ -4,7 +4,7 @@
    (the matcher applied to the line SUFFIX with NOTBOL: fm_suffix rfind) and the whole-line one
    (wfind kw s k = leftmost match at or after byte k judged against the whole line s). *)
 From Coq Require Import List NArith ZArith Bool Arith.
-From NV Require Import Bytes UcDefs UcSpec SearchDefs SearchProps.
+From NV Require Import Bytes UcDefs UcSpec SearchDefs SearchProps Search2Defs Search2Props.
 Import ListNotations.
 Local Open Scope nat_scope.
 
@@ -107,3 +107,120 @@ Example C13_nonvacuous :
   ref_spec_run true sstate0 lb [(CSlash [97; 98]%N, 2); (CPrev, 1); (CQuest [98; 36]%N, 1)] 0 0
     = [(true, (0, 3)); (true, (0, 1)); (false, (0, 1))].
 Proof. vm_compute. repeat split; reflexivity. Qed.
+
+(* ---------------------------------------------------------------------------------------------- *)
+(* the remembered line offset (vi.c vi_soset, vi_so) as state between search commands *)
+
+(* one command, any state before it, any matcher: / and ? set the offset from the text after their own closing
+   delimiter, n and N keep it, ^A switches it off when there is a word under the cursor (off_next, loop-free) *)
+Theorem C13_offset_step : forall fmk rcomp st lb cmd cnt xrow xoff,
+  off_of (fst (fst (search_cmd fmk rcomp st lb cmd cnt xrow xoff))) = off_next lb cmd xrow xoff (off_of st).
+Proof. exact search_cmd_off. Qed.
+Print Assumptions C13_offset_step.
+
+(* arbitrary command sequences: run_trace is run_cmds with the states shown, and the offsets along it are the
+   fold of off_next over the commands and the cursor positions before them -- they never depend on what the
+   searches find *)
+Theorem C13_trace_is_run : forall fmk rcomp lb cmds st xrow xoff,
+  map (fun x => (snd (fst x), snd x)) (run_trace fmk rcomp st lb cmds xrow xoff) = run_cmds fmk rcomp st lb cmds xrow xoff.
+Proof. exact run_trace_cmds. Qed.
+Print Assumptions C13_trace_is_run.
+
+Theorem C13_offset_trace : forall fmk rcomp lb cmds st xrow xoff,
+  let tr := run_trace fmk rcomp st lb cmds xrow xoff in
+  map (fun x => off_of (fst (fst x))) tr = off_trace lb cmds ((xrow, xoff) :: map snd tr) (off_of st).
+Proof. exact offset_trace. Qed.
+Print Assumptions C13_offset_trace.
+
+(* where a successful command lands: with no offset in force on the count-th match itself, with an offset on
+   the first non-blank of the line `so` rows from the match, which exists *)
+Theorem C13_landing : forall fmk rcomp st lb cmd cnt xrow xoff st' r o,
+  search_cmd fmk rcomp st lb cmd cnt xrow xoff = (st', true, (r, o)) ->
+  exists r1 o1 l,
+    search_iter fmk rcomp cnt (kwd st') lb (cmd_fwd cmd st') xrow (ren_noeol (nth xrow lb []) xoff) = SFound r1 o1 l /\
+    if soset st'
+    then Z.of_nat r = (Z.of_nat r1 + so st')%Z /\ r < length lb /\
+         o = ren_noeol (nth r lb []) (lbuf_indents (nth r lb []))
+    else r = r1 /\ o = ren_noeol (nth r1 lb []) o1.
+Proof. exact search_cmd_lands. Qed.
+Print Assumptions C13_landing.
+
+(* ^A after ANY history (st is arbitrary, in particular soset st = true): the cursor is on the count-th
+   \<word\> forward from the cursor, not on a line offset from it, and the offset is off afterwards *)
+Theorem C13_word_lands_on_match : forall fmk rcomp st lb cnt xrow xoff st' r o,
+  search_cmd fmk rcomp st lb CWord cnt xrow xoff = (st', true, (r, o)) ->
+  let ln := nth xrow lb [] in
+  exists w o1 l, vi_curword ln (ren_noeol ln xoff) = Some w /\
+    st' = word_state st w /\ soset st' = false /\
+    search_iter fmk rcomp cnt (kwd st') lb true xrow (ren_noeol ln xoff) = SFound r o1 l /\
+    o = ren_noeol (nth r lb []) o1.
+Proof. exact word_lands_on_match. Qed.
+Print Assumptions C13_word_lands_on_match.
+
+(* from a state without an offset, any sequence of n N ^A keeps it off, and each of its commands that succeeds
+   lands on the match found from the cursor the previous command left *)
+Theorem C13_offset_stays_off : forall fmk rcomp lb cmds st xrow xoff,
+  forallb (fun cn => prompt_free (fst cn)) cmds = true -> soset st = false ->
+  Forall (fun x => soset (fst (fst x)) = false) (run_trace fmk rcomp st lb cmds xrow xoff).
+Proof. exact offset_stays_off. Qed.
+Print Assumptions C13_offset_stays_off.
+
+Theorem C13_lands_on_match_until_prompt : forall fmk rcomp lb cmds st xrow xoff,
+  forallb (fun cn => prompt_free (fst cn)) cmds = true -> soset st = false ->
+  forall i c n st0 ok0 pos0 st' r o,
+    nth_error cmds i = Some (c, n) ->
+    nth_error ((st, true, (xrow, xoff)) :: run_trace fmk rcomp st lb cmds xrow xoff) i = Some (st0, ok0, pos0) ->
+    nth_error (run_trace fmk rcomp st lb cmds xrow xoff) i = Some (st', true, (r, o)) ->
+    exists o1 l, search_iter fmk rcomp n (kwd st') lb (cmd_fwd c st') (fst pos0)
+                   (ren_noeol (nth (fst pos0) lb []) (snd pos0)) = SFound r o1 l /\
+                 o = ren_noeol (nth r lb []) o1.
+Proof. exact lands_on_match_until_prompt. Qed.
+Print Assumptions C13_lands_on_match_until_prompt.
+
+(* non-vacuity: /ef/1  ^A  N  ?ef?-1  n  on five lines -- the offset is set, switched off by ^A, kept by N,
+   set again, kept by the failing n; the trace of offsets is the fold of off_next *)
+Example C13_nonvacuous_offsets :
+  let lb := [[97;98;32;99;100;10]; [99;100;32;101;102;10]; [32;32;99;100;10]; [105;106;32;99;100;10]; [107;108;10]]%N in
+  let cmds := [(CSlash [101;102;47;49]%N, 1); (CWord, 1); (CPrev, 1); (CQuest [101;102;63;45;49]%N, 1); (CNext, 1)] in
+  map (fun x => (off_of (fst (fst x)), snd (fst x), snd x)) (ref_trace true sstate0 lb cmds 0 0)
+    = [(true, 1%Z, true, (2, 2)); (false, 1%Z, true, (3, 3)); (false, 1%Z, true, (2, 2));
+       (true, (-1)%Z, true, (0, 0)); (true, (-1)%Z, false, (0, 0))] /\
+  off_trace lb cmds [(0, 0); (2, 2); (3, 3); (2, 2); (0, 0)] (false, 0%Z)
+    = [(true, 1%Z); (false, 1%Z); (false, 1%Z); (true, (-1)%Z); (true, (-1)%Z)].
+Proof. vm_compute. split; reflexivity. Qed.
+
+(* ---------------------------------------------------------------------------------------------- *)
+(* purely literal patterns (the fast path of rstr.c): the match is an occurrence of the literal *)
+
+(* ignorecase identifies A..Z with a..z and no other pair of bytes *)
+Theorem C13_fold_ascii_letters_only : forall ic c x, fold ic c = fold ic x ->
+  c = x \/ (ic = true /\ ((65 <= c <= 90 /\ x = c + 32) \/ (65 <= x <= 90 /\ c = x + 32)))%N.
+Proof. exact fold_eq_cases. Qed.
+Print Assumptions C13_fold_ascii_letters_only.
+
+(* with or without anchors: what the literal scan returns is an occurrence of the literal (byte-wise equal
+   up to that folding), never a near miss *)
+Theorem C13_literal_sound : forall ic kw sp prev notbol s p e, rstr_simple kw = Some sp ->
+  ref_find ic kw prev notbol s = Some (p, e) -> e = p + length (lit sp) /\ occurs_at ic (lit sp) s p.
+Proof. exact ref_literal_sound. Qed.
+Print Assumptions C13_literal_sound.
+
+(* without anchors: the FIRST occurrence in the subject (the line suffix the scan stands at), and when the
+   scan finds nothing there is no occurrence that ends before the last byte (the newline) *)
+Theorem C13_literal_first_occurrence : forall ic kw sp prev notbol s, rstr_simple kw = Some sp -> plain sp ->
+  match ref_find ic kw prev notbol s with
+  | Some (p, e) => e = p + length (lit sp) /\ occurs_at ic (lit sp) s p /\
+                   forall q, q < p -> ~ occurs_at ic (lit sp) s q
+  | None => forall q, q + length (lit sp) < length s -> ~ occurs_at ic (lit sp) s q
+  end.
+Proof. exact ref_literal_first. Qed.
+Print Assumptions C13_literal_first_occurrence.
+
+(* non-vacuity: "a#b" is a plain literal; under ignorecase it is found at byte 4 of "A^Cb A#B", not at byte 0
+   (# and ^C differ in bit 5 only), and U+0131 x is found at byte 4 of "U+0111 x U+0131 x" *)
+Example C13_nonvacuous_literal :
+  (exists sp, rstr_simple [97; 35; 98]%N = Some sp /\ plain sp) /\
+  ref_find true [97; 35; 98]%N None false [65; 3; 98; 32; 65; 35; 66; 10]%N = Some (4, 7) /\
+  occurs_atb true [97; 35; 98]%N [65; 3; 98; 32; 65; 35; 66; 10]%N 0 = false /\
+  ref_find true [196; 177; 120]%N None false [196; 145; 120; 32; 196; 177; 120; 10]%N = Some (4, 7).
+Proof. split; [eexists; split; [reflexivity|repeat split]|vm_compute; repeat split; reflexivity]. Qed.
